@@ -19,7 +19,7 @@ META = {
     "(explicit-state enumeration by history replay) against 'renders like the same configuration alone'",
     "text": "(i) every C12 skeleton (quick: <= 2 tags) and every gen_stmt program (<= 2 statement nodes) is printed under "
     "six delimiter sets and must render identically under all four trim/lstrip settings; (ii) every well-nested "
-    "program of <= 5 (thorough 6) whole lines (text, for/if/else/set statements, comments, two indentations) renders "
+    "program of <= 4 (thorough 5) whole lines (text, for/if/else/set statements, comments, two indentations) renders "
     "the same in block form and in line-statement / line-comment form in a trim_blocks+lstrip_blocks environment; "
     "(iii) jinja2.Template(src, **opts) equals Environment(**opts).from_string(src) over a 288-point option grid; "
     "(iv) every overlay chain of <= 3 single-option steps renders like a fresh environment with the final options and "
@@ -704,7 +704,7 @@ def run(ctx: core.Ctx):
         shards += [("skel", q, i, k, n) for k in range(n)]
     K = 32
     shards += [("stmt", "mid" if q else "full", 2, k, K) for k in range(K)]
-    Lmax = 5 if q else 6
+    Lmax = 4 if q else 5
     shards += [("line", (), [1])]
     shards += [("line", (x, y), list(range(2, Lmax + 1))) for x in LINE_ALPHABET for y in LINE_ALPHABET]
     shards += [("tmpl", k, 48) for k in range(48)]
